@@ -17,8 +17,16 @@
   * A `Schedule` is the device's freedom: for the i-th accepted operation how many GETSTATUS
     polls answer dfuDNBUSY and with which bwPollTimeout each (a list: any length, any values),
     the bwPollTimeout of the completing reply, and an error status with which the operation
-    fails (0 = it succeeds); the bwPollTimeout of every GETSTATUS answered outside an operation;
-    and the error status the device starts with (0 = it starts in dfuIDLE).
+    fails (0 = it succeeds), in one of two flavours; the bwPollTimeout of every GETSTATUS answered
+    outside an operation; and the error status the device starts with (0 = it starts in dfuIDLE).
+  * The two fault flavours.  DFU 1.1 (A.2.5) sends a failing operation to dfuERROR, where the
+    status stays until DFU_CLRSTATUS: that is the default flavour (`Device.fail`).  Bootloaders
+    exist that report the failure in bStatus only: the GETSTATUS that completes the operation
+    carries bStatus = the error, while bState goes where a successful operation would have gone
+    (dfuDNLOAD_IDLE); the operation did not happen (flash and address pointer unchanged) and the
+    status is not latched — "bStatus: the status resulting from the execution of the most recent
+    request" (DFU 1.1 §6.1.2), so the next request starts from OK.  That is the `statusOnly`
+    flavour (`Device.failSoft`).  A host that looks at bState instead of bStatus cannot see it.
   * Monitors (sticky flags) record what a correct host must never do.
   * A clock, advanced only by the host's sleeps; every GETSTATUS reply sets the earliest time the
     next request may arrive (`readyAt`).
@@ -56,6 +64,7 @@ structure OpSched where
   busy : List Nat := []        -- bwPollTimeout of each successive dfuDNBUSY reply (length = number of busy polls)
   doneTimeout : Nat := 0       -- bwPollTimeout of the reply that reports completion
   fault : Nat := 0             -- bStatus the operation ends with (taken mod 256; 0 = success)
+  statusOnly : Bool := false   -- the failure shows in bStatus only: bState as after a success (dfuDNLOAD_IDLE)
 deriving Repr, DecidableEq, Inhabited
 
 structure Schedule where
@@ -84,6 +93,7 @@ structure Device where
   busyLeft : List Nat         -- remaining dfuDNBUSY replies of the pending operation
   doneTimeout : Nat
   fault : Nat
+  soft : Bool                 -- the pending operation's fault is of the status-only flavour
   opIdx : Nat                 -- operations accepted so far
   idleIdx : Nat               -- GETSTATUS answered outside an operation so far
   clock : Nat                 -- milliseconds
@@ -105,7 +115,7 @@ def Device.init (pageCount : Nat) (sched : Schedule) (flash : Nat → Cell) : De
   { pageCount, sched, flash,
     state := if sched.startErr % 256 = 0 then .idle else .error,
     status := sched.startErr % 256,
-    ptr := flashBase, pending := none, busyLeft := [], doneTimeout := 0, fault := 0,
+    ptr := flashBase, pending := none, busyLeft := [], doneTimeout := 0, fault := 0, soft := false,
     opIdx := 0, idleIdx := 0, clock := 0, readyAt := 0, mon := {},
     erasedLog := [], writtenLog := [], nreq := 0, stalls := 0 }
 
@@ -121,6 +131,11 @@ def setCell (f : Nat → Cell) (p : Nat) (c : Cell) : Nat → Cell := fun q => i
 /-- the operation fails: dfuERROR with the given status, flash unchanged -/
 def Device.fail (d : Device) (status : Nat) : Device :=
   { d with state := .error, status := status, pending := none, busyLeft := [] }
+
+/-- the operation fails the status-only way: it did not happen (flash, pointer unchanged), the
+    device is in dfuDNLOAD_IDLE as after a success; the error travels in the completing reply only -/
+def Device.failSoft (d : Device) : Device :=
+  { d with state := .dnloadIdle, pending := none, busyLeft := [] }
 
 /-- effect of a successful operation -/
 def Device.apply (d : Device) : Op → Device
@@ -170,9 +185,11 @@ def Device.getStatus (d : Device) (wLength : Nat) : Device × Response :=
       ({ d with state := .dnBusy, busyLeft := rest, readyAt := d.clock + t % 16777216 },
        .bytes ((statusReply d.status t DState.dnBusy.code).take wLength))
     | [] =>
-      let d' := if d.fault % 256 = 0 then d.apply op else d.fail (d.fault % 256)
+      let d' := if d.fault % 256 = 0 then d.apply op
+                else if d.soft then d.failSoft else d.fail (d.fault % 256)
+      let st := if d.fault % 256 ≠ 0 ∧ d.soft = true then d.fault % 256 else d'.status
       ({ d' with readyAt := d.clock + d.doneTimeout % 16777216 },
-       .bytes ((statusReply d'.status d.doneTimeout d'.state.code).take wLength))
+       .bytes ((statusReply st d.doneTimeout d'.state.code).take wLength))
   | none =>
     let t := d.sched.idleTimeout d.idleIdx
     let st := if d.state = .manifestSync then DState.idle else d.state
@@ -225,7 +242,7 @@ def Device.dnload (d : Device) (wValue : Nat) (data : List Nat) : Device × Resp
       | some op =>
         let o := d.sched.op d.opIdx
         ({ d with state := .dnloadSync, pending := some op, busyLeft := o.busy,
-                  doneTimeout := o.doneTimeout, fault := o.fault, opIdx := d.opIdx + 1,
+                  doneTimeout := o.doneTimeout, fault := o.fault, soft := o.statusOnly, opIdx := d.opIdx + 1,
                   mon := { d.mon with addrRange := d.mon.addrRange || opOutside d.pageCount op } },
          .count data.length)
   else d.stallErr
